@@ -38,9 +38,46 @@ AStep(sr, M, s, v) ==
 RECURSIVE ALfp(_, _, _, _)
 ALfp(sr, M, s, v) == LET nx == AStep(sr, M, s, v) IN IF nx = v THEN v ELSE ALfp(sr, M, s, nx)
 Forward(sr, M, s) == ALfp(sr, M, s, [it \in AItems(M, Len(s)) |-> Zero(sr)])
-AWeight(sr, M, s) ==
+AWeightLfp(sr, M, s) ==
   LET v == Forward(sr, M, s)
   IN SumSeq(sr, [i \in DOMAIN M.F |-> Mul(sr, v[<<M.F[i][1], Len(s)>>], M.F[i][2])])
+
+(* The same sum in closed form, for semirings where Kleene iteration does not terminate on epsilon cycles (the  *)
+(* rationals): the epsilon closure Estar = sum_k E^k is computed by elimination with the semiring star (defined   *)
+(* where the geometric series of every pivot converges); the weight is I Estar (A_s1 Estar) ... (A_sn Estar) F.   *)
+(* MCAutomata.tla checks that both forms agree on every automaton of a small family in Sat3.                      *)
+EpsW(sr, M, p, q) == SumSeq(sr, [r \in DOMAIN M.arcs |->
+                        IF M.arcs[r][1] = p /\ M.arcs[r][3] = q /\ M.arcs[r][2] = EPS THEN M.arcs[r][4] ELSE Zero(sr)])
+StPairs(M) == {<<p, q>> : p \in St(M), q \in St(M)}
+RECURSIVE ElimFrom(_, _, _, _)
+ElimFrom(sr, M, K, j) ==
+  IF j = M.n THEN K
+  ELSE LET sj == Star(sr, K[<<j, j>>])
+       IN ElimFrom(sr, M, [pq \in StPairs(M) |->
+                              Add(sr, K[pq], Mul(sr, Mul(sr, K[<<pq[1], j>>], sj), K[<<j, pq[2]>>]))], j + 1)
+RECURSIVE PivotsOK(_, _, _, _)
+PivotsOK(sr, M, K, j) ==
+  IF j = M.n THEN TRUE
+  ELSE StarDefined(sr, K[<<j, j>>]) /\
+       LET sj == Star(sr, K[<<j, j>>])
+       IN PivotsOK(sr, M, [pq \in StPairs(M) |->
+                              Add(sr, K[pq], Mul(sr, Mul(sr, K[<<pq[1], j>>], sj), K[<<j, pq[2]>>]))], j + 1)
+EpsMatrix(sr, M) == [pq \in StPairs(M) |-> EpsW(sr, M, pq[1], pq[2])]
+EpsClosureDefined(sr, M) == PivotsOK(sr, M, EpsMatrix(sr, M), 0)
+EpsClosure(sr, M) ==
+  LET K == ElimFrom(sr, M, EpsMatrix(sr, M), 0)
+  IN [pq \in StPairs(M) |-> IF pq[1] = pq[2] THEN Add(sr, One(sr), K[pq]) ELSE K[pq]]
+AWeightClosed(sr, M, s) ==
+  LET ES == EpsClosure(sr, M)
+      close(v) == [q \in St(M) |-> SumSeq(sr, [p \in 1 .. M.n |-> Mul(sr, v[p - 1], ES[<<p - 1, q>>])])]
+      v0 == close([q \in St(M) |-> WI(sr, M, q)])
+      RECURSIVE Run(_, _)
+      Run(v, i) == IF i > Len(s) THEN v
+                   ELSE Run(close([q \in St(M) |-> SumSeq(sr, [r \in DOMAIN M.arcs |->
+                              IF M.arcs[r][3] = q /\ M.arcs[r][2] = s[i] THEN Mul(sr, v[M.arcs[r][1]], M.arcs[r][4])
+                              ELSE Zero(sr)])]), i + 1)
+      vn == Run(v0, 1)
+  IN SumSeq(sr, [i \in DOMAIN M.F |-> Mul(sr, vn[M.F[i][1]], M.F[i][2])])
 
 (* total weight of all accepting paths: backward least fixed point *)
 BStep(sr, M, b) ==
@@ -62,7 +99,8 @@ ReachA(E, S0) ==
       Grow(S) == LET nx == S \cup {e[2] : e \in {e \in E : e[1] \in S}} IN IF nx = S THEN S ELSE Grow(nx)
   IN Grow(S0)
 CyclicA(E) == \E e \in E : e[1] \in ReachA(E, {e[2]})
-AExact(sr, M) == IsFinSR(sr) \/ ~CyclicA(EpsEdges(M))
+AExact(sr, M) == IsFinSR(sr) \/ ~CyclicA(EpsEdges(M)) \/ EpsClosureDefined(sr, M)
+AWeight(sr, M, s) == IF IsFinSR(sr) \/ ~CyclicA(EpsEdges(M)) THEN AWeightLfp(sr, M, s) ELSE AWeightClosed(sr, M, s)
 ATotalExact(sr, M) == IsFinSR(sr) \/ ~CyclicA(ArcEdges(M))
 
 (* structural predicates *)
